@@ -472,6 +472,13 @@ pub fn encode_with_fixed_block_size<T: Source>(
 
     destruct_arc(parsink).finalize(|f: Frame| stream.add_frame(f));
 
+    // The last block may be shorter than `block_size`, but STREAMINFO's minimum
+    // block size excludes it (and a value below 16 makes the stream invalid).
+    stream
+        .stream_info_mut()
+        .set_block_sizes(block_size, block_size)
+        .unwrap();
+
     stream
         .stream_info_mut()
         .set_total_samples(src_len_hint.unwrap_or_else(|| context.total_samples()));
